@@ -359,6 +359,123 @@ def strip_t(p):
     return p
 
 
+def bind_pattern(g, pat, t, out):
+    """bind the variables of a closure parameter pattern to the named parsers at the same position of the parser term"""
+    while t['op'] == 'map' and t['kind'] in ('cut', 'trace', 'context', 'backtrack'):
+        t = t['p']
+    k = pat.get('k')
+    if k == 'p_tuple' and t['op'] == 'seq' and t.get('out') is None and len(pat['pats']) == len(t['items']):
+        for pp, tt in zip(pat['pats'], t['items']):
+            bind_pattern(g, pp, tt, out)
+        return
+    if k == 'p_bind':
+        inner = t
+        opt = False
+        if inner['op'] == 'opt':
+            opt = True
+            inner = inner['p']
+        while inner['op'] == 'map' and inner['kind'] in ('cut', 'trace', 'context'):
+            inner = inner['p']
+        if inner['op'] == 'ref':
+            out[pat['name']] = ('opt:' if opt else '') + last_seg(inner['fn'])
+        elif inner['op'] == 'tok':
+            out[pat['name']] = 'tok'
+        elif inner['op'] == 'seq':
+            out[pat['name']] = 'tuple'
+        return
+
+
+def r9_wiring(rep, g, facts):
+    R = rep.rule('C02/R9', 'date-time assembly wiring: every field of Time / Date / Datetime is initialised from the binding produced by the parser of '
+                 'that field, and the offset is sign * (hours * 60 + minutes)', floor=9)
+    # partial_time: Time { hour, minute, second, nanosecond }
+    t = term(g, 'datetime::partial_time')
+    loc = facts.loc(facts.body(P + 'datetime::partial_time'))
+    maps = [x for x in g.subterms(t) if x['op'] == 'map' and x['kind'] == 'map']
+    want = {'hour': 'time_hour', 'minute': 'time_minute', 'second': 'time_second', 'nanosecond': 'opt:time_secfrac'}
+    if maps:
+        clo = pm.closure_of(maps[0]['node']['args'][0])
+        b = {}
+        bind_pattern(g, clo['params'][0], maps[0]['p'], b)
+        st = [n for n in walk(clo['body']) if n.get('k') == 'struct' and (n.get('adt') or '').endswith('datetime::Time')]
+        got = {}
+        if st:
+            for f in st[0]['fields']:
+                vs = [x['path'] for x in walk(f['e']) if x.get('k') == 'path' and x.get('res') == 'Local']
+                got[f['name']] = b.get(vs[0]) if vs else None
+        for fld, fn in want.items():
+            rep.check(R, f'partial_time|Time.{fld}', got.get(fld) == fn, f'{fld} <- {got.get(fld)}', f'`Time.{fld}` is filled from the result of `{got.get(fld)}`, expected `{fn}` (fields swapped)', loc)
+    else:
+        rep.incomplete(R, 'partial_time|map', 'assembly closure not found', loc)
+    # full_date_: Date { year, month, day }
+    b = facts.body(P + 'datetime::full_date_')
+    from .rules_c01 import binding_of_parser
+    binds = {binding_of_parser(b['body'], 'date_fullyear'): 'date_fullyear', binding_of_parser(b['body'], 'date_month'): 'date_month', binding_of_parser(b['body'], 'date_mday'): 'date_mday'}
+    st = [n for n in walk(b['body']) if n.get('k') == 'struct' and (n.get('adt') or '').endswith('datetime::Date')]
+    want = {'year': 'date_fullyear', 'month': 'date_month', 'day': 'date_mday'}
+    got = {}
+    if st:
+        for f in st[0]['fields']:
+            vs = [x['path'] for x in walk(f['e']) if x.get('k') == 'path' and x.get('res') == 'Local']
+            got[f['name']] = binds.get(vs[0]) if vs else None
+    for fld, fn in want.items():
+        rep.check(R, f'full_date_|Date.{fld}', got.get(fld) == fn, f'{fld} <- {got.get(fld)}', f'`Date.{fld}` is filled from `{got.get(fld)}`, expected `{fn}`', facts.loc(b))
+    # date_time: (full_date, opt((time_delim, partial_time, opt(time_offset))))
+    t = term(g, 'datetime::date_time')
+    loc = facts.loc(facts.body(P + 'datetime::date_time'))
+    alts = [x for x in g.subterms(t) if x['op'] == 'alt']
+    first = alts[0]['items'][0] if alts else None
+    ok = False
+    detail = 'first alternative not found'
+    if first is not None:
+        x = first
+        clo = None
+        while x['op'] == 'map':
+            if x['kind'] == 'map':
+                clo = pm.closure_of(x['node']['args'][0])
+                inner = x['p']
+            x = x['p']
+        if clo is not None:
+            structs = [n for n in walk(clo['body']) if n.get('k') == 'struct' and (n.get('adt') or '').endswith('datetime::Datetime')]
+            # the arm with a time: pattern Some((_, time, offset))
+            full = [n for n in structs if all(any(y.get('k') == 'path' and y.get('res') == 'Local' for y in walk(f['e'])) for f in n['fields'])]
+            names = {}
+            for n in full[:1]:
+                for f in n['fields']:
+                    vs = [y['path'].split('#')[0] for y in walk(f['e']) if y.get('k') == 'path' and y.get('res') == 'Local']
+                    names[f['name']] = vs[0] if vs else None
+            seq_names = [last_seg(x['fn']) for x in g.subterms(inner) if x['op'] == 'ref']
+            ok = names == {'date': 'date', 'time': 'time', 'offset': 'offset'} and seq_names[:1] == ['full_date'] and 'partial_time' in seq_names and 'time_offset' in seq_names
+            detail = f'{names}, parsers {seq_names}'
+    rep.check(R, 'date_time|Datetime fields', ok, detail, f'Datetime assembly changed: {detail}', loc)
+    # time_offset: sign * (hours * 60 + minutes)
+    t = term(g, 'datetime::time_offset')
+    loc = facts.loc(facts.body(P + 'datetime::time_offset'))
+    maps = [x for x in g.subterms(t) if x['op'] == 'map' and x['kind'] == 'map']
+    okv = False
+    detail = 'offset closure not found'
+    for mnode in maps:
+        clo = pm.closure_of(mnode['node']['args'][0])
+        if clo is None or not any(n.get('k') == 'binary' and n.get('op') == '*' for n in walk(clo['body'])):
+            continue
+        bnd = {}
+        bind_pattern(g, clo['params'][0], mnode['p'], bnd)
+        hv = [k for k, v in bnd.items() if v == 'time_hour']
+        mv = [k for k, v in bnd.items() if v == 'time_minute']
+        sv = [k for k, v in bnd.items() if v == 'tok']
+        if not (hv and mv and sv):
+            detail = f'bindings {bnd}'
+            continue
+        it = Interp(g.ev)
+        try:
+            vals = {(s, h, m): it.run(clo['body'], {sv[0]: s, hv[0]: h, mv[0]: m}) for s in (43, 45) for h in (0, 7, 23) for m in (0, 30, 59)}
+            okv = all(v == (1 if s == 43 else -1) * (h * 60 + m) for (s, h, m), v in vals.items())
+            detail = 'sign * (hours * 60 + minutes) on 18 samples' if okv else f'{list(vals.items())[:3]}'
+        except Unanalysable as e:
+            detail = str(e)
+    rep.check(R, 'time_offset|minutes', okv, detail, f'offset is not sign * (hours * 60 + minutes): {detail}', loc)
+
+
 def rules(rep, facts):
     feats = set(facts.crates.get('toml_edit', {}).get('features', []))
     if 'toml_edit' not in facts.crates or 'parse' not in feats:
@@ -375,7 +492,7 @@ def rules(rep, facts):
     r7_storage(rep, facts)
     if 'toml' in facts.crates and facts.has_body("<toml_edit::de::value::ValueDeserializer as serde::de::Deserializer<'de>>::deserialize_any"):
         r8_serde_table(rep, facts)
-    rep.not_implemented = ['C02/R9 assembly wiring (tier 2)']
+    r9_wiring(rep, g, facts)
 
 
 def run(tier):
